@@ -9,7 +9,7 @@ META = {
     "coq_targets": ["Props/Properties_C35.vo", "Prog/C35Member.vo"],
     "coq_files": ["Prog/IR.v", "Prog/IRProofs.v", "Prog/Tables_C35.v", "Prog/C35Member.v", "Prog/C35MemberProofs.v", "Props/Properties_C35.v"],
     "theorems": ["C35_static", "C35_non_member_never_acts", "C35_shapes_refuse_non_members", "C35_lookup_failure_is_non_member", "C35_is_alphabet_iff", "C35_non_member_index_negative"],
-    "technique": "Coq: dominance checker over a handler IR proved sound once; the IR of pkg/innerring and all processors is regenerated from the Go source by the translator xlate on every run and the obligations are re-checked by vm_compute (translation tie); the membership getters IsAlphabet/AlphabetIndex/InnerRingIndex are modelled, proved and tied by a differential run over generated key lists and lookup failures",
+    "technique": "Coq: dominance checker over a handler IR proved sound once; the IR of pkg/innerring and all processors is regenerated from the Go source by the translator xlate on every run and the obligations are re-checked by vm_compute (translation tie); the membership getters IsAlphabet/AlphabetIndex/InnerRingIndex are modelled, proved and tied by a differential run over generated key lists and lookup failures, incl. histories of lookups/resets/partial failures on one cached indexer instance (cache model tied and checked against the reference; no theorem about the cache)",
     "level_text": "Quantifier = programs. Every function of pkg/innerring and pkg/innerring/processors/* is translated to the IR on each run; entry points are all functions that no analysed function calls "
                   "(notification, notary-request and timer handlers, startup, exported methods), so a newly added handler is included automatically. C35_static (vm_compute on the regenerated IR): from every entry point, "
                   "with calls inlined to depth 5 and deeper calls treated as needing the check, every chain transaction that needs alphabet authority (Invoke/NotaryInvoke/NotarySignAndInvokeTX/TransferGas/NewEpoch/Mint/Burn/Lock/Cheque/...) "
@@ -40,10 +40,30 @@ def regen(ctx):
 
 def member_tie(ctx):
     binp = ctx.go_build()
-    rs = ctx.run_json([binp])
+    allrs = ctx.run_json([binp])
+    rs = [r for r in allrs if r.get("kind") != "seq"]
+    seqs = [r for r in allrs if r.get("kind") == "seq"]
     if not ctx.model_ready(["Prog/C35Member.vo"]):
         ctx.tie(False)
         return
+    # histories on one indexer instance (cache): model tie + reference
+    def sterm(st):
+        return "(mkstep %s %s %s %s %s, (%s, %s, (%d)%%Z, (%d)%%Z, (%d)%%Z))" % (
+            vlib.coq_bool(st["reset"]), vlib.coq_list(st["ir"]), vlib.coq_list(st["alpha"]), vlib.coq_bool(st["fail_ir"]), vlib.coq_bool(st["fail_alpha"]),
+            vlib.coq_bool(st["is_alpha"]), vlib.coq_bool(st["is_active"]), st["alpha_idx"], st["ir_idx"], st["ir_size"])
+    hres = ctx.coq_eval_lists("hist", "From NV Require Import Prog.C35Member.\nFrom Coq Require Import List ZArith. Import ListNotations.\n"
+                              "Definition hs : list hcase := %s.\n" % vlib.coq_list(seqs, lambda h: "(%d, %s)" % (h["own"], vlib.coq_list(h["steps"], sterm))),
+                              {"mm": "hist_mismatch_idx hs", "ref": "hist_ref_violation_idx hs"})
+    if hres is None:
+        ctx.tie(False)
+        return
+    ctx.tie(not hres["mm"])
+    ctx.tie(not hres["ref"])
+    for i in hres["ref"][:5]:
+        ctx.violation({"membership_history": seqs[i], "why": "after this history of lookups/resets on one indexer the node is reported as alphabet member although the last complete refresh did not list its key (or none happened)"})
+    for i in [j for j in hres["mm"] if j not in hres["ref"]][:5]:
+        ctx.notes.append("indexer history differs from the cache model (no property violation on this input): %r" % (seqs[i],))
+    ctx.cov["membership_histories"] = len(seqs)
     def term(r):
         return "(%d, %s, %s, %s, %s, (%s, %s, (%d)%%Z, (%d)%%Z, (%d)%%Z))" % (
             r["own"], vlib.coq_list(r["ir"]), vlib.coq_list(r["alpha"]), vlib.coq_bool(r["fail_ir"]), vlib.coq_bool(r["fail_alpha"]),
